@@ -117,6 +117,7 @@ def compare_objects(orig, new, target, rng, spin_labels=True):
     p1 = (new.atcoords[:, None, :] + pts_rel).reshape(-1, 3)
     chi0, g0, da0 = gto.eval_funcs(f0, orig.atcoords, p0, deriv=True)
     chi1 = gto.eval_funcs(f1, new.atcoords, p1)
+    abs0 = gto.eval_funcs_abs(f0, orig.atcoords, p0)  # absolute sum over primitives: conditioning of each function value
     so0 = spin_orbitals(orig)
     so1 = spin_orbitals(new)
     ncmp = 0
@@ -136,7 +137,7 @@ def compare_objects(orig, new, target, rng, spin_labels=True):
         for j, ((o0, e0, c0), (o1, e1, c1)) in enumerate(zip(l0, l1)):
             psi0 = c0 @ chi0
             psi1 = c1 @ chi1
-            env = rel * (np.abs(c0) @ np.abs(chi0) + np.abs(c0) @ da0) + cabs * np.abs(chi0).sum(axis=0) + dcoord * (np.abs(c0) @ g0)
+            env = rel * (np.abs(c0) @ abs0 + np.abs(c0) @ da0) + cabs * abs0.sum(axis=0) + dcoord * (np.abs(c0) @ g0)
             ncmp += 1
             bad = np.abs(psi0 - psi1) > SAFETY * env + 1e-11
             if bad.any():
